@@ -1966,7 +1966,7 @@ class ppc_tlb(ppc_sync, ppc_mn):
     mask_list = [bm_int011111, bm_int00000, bm_int00000, bm_rb, bm_opc10, bm_int0]
     namestr = ['TLBIE', 'TLBLD', 'TLBLI']
     namedct = {'TLBIE':306, 'TLBLD':978, 'TLBLI':1010}
-    mask = {22:bm_set_meta("bm_addopc",(bm_set,),{"fbits":namedct.values()})}
+    mask = {21:bm_set_meta("bm_addopc",(bm_set,),{"fbits":namedct.values(), 'l':10})}
     strname = dict((x[1], x[0]) for x in namedct.items())
 
     do_args = [('rb',reg)]
